@@ -7,8 +7,8 @@ function / constructor) is replaced by that case analysis: a discriminant switch
 body spliced in (its environment bound to the closure value), the result stored in the call's destination.  A `match`
 written by hand and the combinator spelling then reach the rules as the same control-flow shape.
 
-`ok_or_else` and `map_err` are deliberately left as calls (the provenance analysis treats them as transparent and
-several rules reason about their closures directly).
+`map_err` is left as a call in the library (the provenance analysis treats it as transparent); in the command line tool
+it and `unwrap`/`expect` are normalised too, because its error handling is written as `.map_err(|e| die!(..)).unwrap()`.
 
 This is a rewriting of the program's own MIR by the combinators' definitions; nothing is executed."""
 import copy
@@ -27,6 +27,7 @@ COMBINATORS = {
     "std::option::Option::<T>::map_or_else": (OPTION, "map_or_else"),
     "std::option::Option::<T>::and_then": (OPTION, "and_then"),
     "std::option::Option::<T>::unwrap_or_else": (OPTION, "unwrap_or_else"),
+    "std::option::Option::<T>::ok_or_else": (OPTION, "ok_or_else"),
     "std::result::Result::<T, E>::map": (RESULT, "map"),
     "std::result::Result::<T, E>::and_then": (RESULT, "and_then"),
     "std::result::Result::<T, E>::unwrap_or_else": (RESULT, "unwrap_or_else"),
@@ -146,7 +147,7 @@ def _normalise_call(body, bi, closures):
     if recv.get("k") not in ("copy", "move") or recv.get("p"):
         return False
     # the function argument must be a closure built here or a function path; otherwise leave the call alone
-    fpos = {"map": [1], "map_or": [2], "map_or_else": [1, 2], "and_then": [1], "unwrap_or_else": [1], "map_err": [1], "unwrap": []}[shape]
+    fpos = {"map": [1], "map_or": [2], "map_or_else": [1, 2], "and_then": [1], "unwrap_or_else": [1], "map_err": [1], "unwrap": [], "ok_or_else": [1]}[shape]
     for p in fpos:
         if p >= len(args):
             return False
@@ -189,6 +190,11 @@ def _normalise_call(body, bi, closures):
     elif shape == "map_or_else":
         hit = _apply_fn(bld, body, closures, args[2], [pay], dest, cont)
         miss = _apply_fn(bld, body, closures, args[1], [], dest, cont)
+    elif shape == "ok_or_else":
+        hit = bld.block([bld.assign(copy.deepcopy(dest), bld.agg(RESULT, "Ok", 0, [pay]))], bld.goto(cont))
+        tmp = bld.local("")
+        wrap = bld.block([bld.assign(copy.deepcopy(dest), bld.agg(RESULT, "Err", 1, [{"l": tmp, "p": [], "ty": "", "k": "move"}]))], bld.goto(cont))
+        miss = _apply_fn(bld, body, closures, args[1], [], bld.plain(tmp), wrap)
     elif shape == "map_err":
         tmp = bld.local("")
         wrap = bld.block([bld.assign(copy.deepcopy(dest), bld.agg(RESULT, "Err", 1, [{"l": tmp, "p": [], "ty": "", "k": "move"}]))], bld.goto(cont))
@@ -280,6 +286,68 @@ def thread_known_variants(body):
                         break
                 blocks.append({"stmts": copy.deepcopy(S["stmts"]), "term": {"k": "goto", "t": dest, "span": t.get("span"), "threaded_variant": kn[x][1]},
                                "cleanup": False, "synthetic": True})
+                P["term"] = dict(P["term"])
+                P["term"]["t"] = len(blocks) - 1
+                n += 1
+                changed = True
+    n += _thread_try(body)
+    return n
+
+
+CONTROL_FLOW = "std::ops::ControlFlow"
+
+
+def _thread_try(body):
+    """The same for `x?`: a block that jumps to `C: ..; cf = Try::branch(x) -> S` with `S: d = discriminant(cf); switchInt(d)`
+    while x is known to be Ok/Some (resp. Err/None) there gets its own copy of C and S ending in a jump to the Continue
+    (resp. Break) target.  The call itself is kept; only the infeasible edge disappears."""
+    n = 0
+    blocks = body["blocks"]
+    changed = True
+    rounds = 0
+    while changed and rounds < 60 and len(blocks) < 4000:
+        changed = False
+        rounds += 1
+        for ci in range(len(blocks)):
+            C = blocks[ci]
+            t = C["term"]
+            if t["k"] != "call" or t["callee"] != "std::ops::Try::branch" or C.get("cleanup") or t.get("t") is None or C.get("threaded_try"):
+                continue
+            a = t["args"][0] if t["args"] else None
+            if not a or a.get("k") not in ("copy", "move") or a.get("p") or t["dest"]["p"]:
+                continue
+            S = blocks[t["t"]]
+            st = S["term"]
+            if st["k"] != "switch" or not S["stmts"]:
+                continue
+            last = S["stmts"][-1]
+            if not (last["k"] == "assign" and last["rv"]["k"] == "discr" and not last["rv"]["place"]["p"] and last["rv"]["place"]["l"] == t["dest"]["l"]
+                    and st["discr"].get("l") == last["place"]["l"]):
+                continue
+            names = {nm: v for v, nm in last["rv"].get("variants", [])}
+            if "Continue" not in names or "Break" not in names:
+                continue
+            for pi in range(len(blocks)):
+                P = blocks[pi]
+                if pi == ci or P["term"]["k"] != "goto" or P["term"]["t"] != ci:
+                    continue
+                kn = _known_variants_at_end(C["stmts"], _known_variants_at_end(P["stmts"], {}))
+                if a["l"] not in kn:
+                    continue
+                variant = kn[a["l"]][1]
+                arm = "Continue" if variant in ("Ok", "Some") else "Break"
+                v = names[arm]
+                dest = st["otherwise"]
+                for tv, tb in st["targets"]:
+                    if tv == v:
+                        dest = tb
+                        break
+                blocks.append({"stmts": copy.deepcopy(S["stmts"]), "term": {"k": "goto", "t": dest, "span": st.get("span"), "threaded_variant": arm},
+                               "cleanup": False, "synthetic": True})
+                s2 = len(blocks) - 1
+                t2 = copy.deepcopy(t)
+                t2["t"] = s2
+                blocks.append({"stmts": copy.deepcopy(C["stmts"]), "term": t2, "cleanup": False, "synthetic": True, "threaded_try": True})
                 P["term"] = dict(P["term"])
                 P["term"]["t"] = len(blocks) - 1
                 n += 1
